@@ -158,13 +158,15 @@ impl PrettyParseError {
                 character_position + 1
             )
         };
+        // The caret is padded explicitly: a run-time format width is limited to u16::MAX and
+        // panics beyond that (errors at column 65536 or later of a long line).
         let err_string = format!(
-            "{err}\n{arrow}{position}\n{pipe}\n{pipe}{the_line}\n{pipe}{caret:>caret_offset$}\n",
+            "{err}\n{arrow}{position}\n{pipe}\n{pipe}{the_line}\n{pipe}{padding}{caret}\n",
             err = err.specifics.to_string().bold().white(),
             position = position,
             the_line = the_line.trim_end(),
+            padding = " ".repeat(character_position),
             caret = "^".bold().red(),
-            caret_offset = character_position + 1,
             arrow = "--> ".bold().blue(),
             pipe = " |  ".bold().blue(),
         );
